@@ -7,6 +7,7 @@ import Driver.Remote
 import Driver.Quote
 import Driver.Load
 import Driver.Finger
+import Driver.Wc
 /-! Line protocol: `<op> <tok>*` in, one line out (`bad-op` for anything not understood). -/
 open Driver
 
@@ -25,6 +26,7 @@ def dispatch (line : String) : String :=
       else if op.startsWith "quote." then Driver.Quote.handle op args
       else if op.startsWith "load." then Driver.Load.handle op args
       else if op.startsWith "finger." then Driver.Finger.handle op args
+      else if op.startsWith "wc." then Driver.Wc.handle op args
       else none
     r.getD "bad-op"
 
